@@ -321,7 +321,17 @@ func (g *schemaGenerator) generateDeclaredType(t *schemas.Type, scope nameScope)
 	if isNamedType(theType) {
 		// Don't declare named types under a new name.
 		delete(g.output.declsBySchema, t)
-		delete(g.output.declsByName, decl.Name)
+
+		if g.output.declsByName[decl.Name] == &decl {
+			delete(g.output.declsByName, decl.Name)
+		}
+
+		if nt, ok := theType.(*codegen.NamedType); ok && nt.Package == nil && nt.Decl != nil {
+			// t is declared by the type it resolved to (allOf/anyOf are merged into a new schema that
+			// takes over the name): later references to t reuse that declaration instead of
+			// generating it, and its methods, once more.
+			g.output.declsBySchema[t] = nt.Decl
+		}
 
 		return theType, nil
 	}
